@@ -54,6 +54,7 @@ LEVEL_NOTE = ("Trusted: Lean kernel; axioms propext/Classical.choice/Quot.sound 
               "(agreement measured, not proved); set()/sorted() re-implemented "
               "as one insertion pass. Proved about the model, measured against the code.")
 LEVEL_NOTE += (" " + "regexes_as_modelled (Ccp.RxC15): every regular expression / separator of CiscoIOSInterface.parse_single_interface (with parse_intf_short / parse_intf_long) and of CiscoRange.__init__ + parse_cisco_interfaces (incl. the interval splitter (?<=\\d)\\s*-\\s*(?=\\d)) is re-read from /repo's AST on every run and proved equal to the literal the scanner of Model/Intf.lean (matchHead, firstDigits, searchAfter, classWord, scanSlotCardPort, splitIv) was written for.")
+LEVEL_NOTE += (" Scan sets as revised: regexes_as_modelled ties the regex-engine calls with the pattern in canonical form (canonical verbose form without the flag, group names and redundant escapes removed, per-value specialisation of a pattern passed to a same-file helper or built from a name that ranges over a constant collection, always-true searches left out), flags, re.sub replacements and the separator arguments of str.split/join/replace/strip; the literal tests (\"lit\" in x, == against string literals and their subscripts, startswith) are informational definitions Gen.rx...Info, no theorem is about them.")
 EXHAUSTIVE = {"quick": False, "thorough": False}
 ASSUMPTIONS = [
     "digits are ASCII (\\d, str.isdigit and int() of CPython also accept other Unicode decimal digits)",
